@@ -10,9 +10,9 @@ import time as _time
 from eliot import FileDestination, add_destinations, log_message, remove_destination, start_action
 from eliot.json import json_default
 
-from vf import gen
+from vf import gen, shutdown
 from vf.gen import json_equal
-from vf.runner import h
+from vf.runner import REPO, h
 from vf.tape import RecordingFile
 
 import sys as _sys
@@ -33,7 +33,10 @@ RULE = ("messages over the JSON-native domain (boundary integers/floats, control
         "part 'faultyfile': the file's write()/flush() raise on selected calls (BlockingIOError, "
         "InterruptedError, ENOSPC, closed file): still exactly one write of each offered message's line (none duplicated by a retry), "
         "only the file's own exception may come out, later messages are written normally. non-trivial = message with an escape-requiring string, a boundary number or "
-        "nesting >=3; distinct by hash of the message")
+        "nesting >=3; distinct by hash of the message. json_default 'e' handles the application's types only and refuses everything else without "
+        "delegating: what the encoder writes by itself (dates, times, datetimes, tuples) must not depend on it. part 'shutdown': fresh "
+        "interpreters whose leftover objects log Path/set/complex/date/... values from __del__ while the interpreter is torn down, into "
+        "FileDestinations on binary, unbuffered and stdout files: one faithful line per message offered")
 ASSUMPTIONS = ["value domain bounded by orjson's own limits (64-bit integers, nesting < 254, valid Unicode)"]
 BATCH = 500
 
@@ -132,7 +135,16 @@ def default_d(o):
         return {"unsupported": type(o).__name__}
 
 
-DEFAULTS = {"default": json_default, "a": default_a, "b": default_b, "c": default_c, "d": default_d}
+def default_e(o):
+    """A caller's json_default that handles the application's own types and refuses everything else WITHOUT delegating to the library's
+    (the style of eliot's own test_filedestination_custom_json_default). What the encoder writes by itself (dates, times, datetimes,
+    tuples) does not depend on it."""
+    if isinstance(o, Custom):
+        return {"custom": o.v}
+    raise TypeError("default_e does not know %s" % type(o).__name__)
+
+
+DEFAULTS = {"default": json_default, "a": default_a, "b": default_b, "c": default_c, "d": default_d, "e": default_e}
 
 
 def plan(tier, seed):
@@ -144,12 +156,37 @@ def plan(tier, seed):
     specs += [{"part": "realtext", "seed": seed, "lo": i, "hi": min(nr, i + 100), "tier": tier} for i in range(0, nr, 100)]
     nf = 2000 if tier == "quick" else 20000
     specs += [{"part": "faultyfile", "seed": seed, "lo": i, "hi": min(nf, i + 100), "tier": tier} for i in range(0, nf, 100)]
+    combos = [(d, hw, v) for d in shutdown.DESTS for hw in shutdown.HOWS for v in sorted(shutdown.EXPECTED_JSON)]
+    random.Random("%s:C10:shutdown" % seed).shuffle(combos)
+    specs += [{"part": "shutdown", "seed": seed, "dest": d, "how": hw, "value": v} for d, hw, v in (combos[:12] if tier == "quick" else combos)]
     return specs
+
+
+def shutdown_case(spec):
+    """Messages offered to a file destination from finalizers that run while the interpreter shuts down (a fresh interpreter per case):
+    still one valid, faithful line each."""
+    import subprocess
+    res = {"evals": 1, "nontrivial": [], "counters": {}, "violations": [], "sample": None}
+    sp = {"dest": spec["dest"], "how": spec["how"], "value": spec["value"]}
+    try:
+        out = shutdown.run_probe(REPO, sp)
+    except subprocess.TimeoutExpired:
+        return {"inconclusive": "the shutdown probe did not finish in time"}
+    problems, inc = shutdown.judge_lines(out, sp)
+    if inc:
+        return {"inconclusive": inc}
+    res["counters"]["messages_offered_during_interpreter_shutdown"] = out["expected_messages"] - 4
+    res["nontrivial"].append(h(["shutdown", spec["dest"], spec["how"], spec["value"]]))
+    if problems:
+        res["violations"].append({"msg": problems[0], "mech": None, "detail": {"problems": problems, "spec": spec, "stderr": out["stderr"][-10:]}})
+    return res
 
 
 def gen_rich(rng, which):
     """Returns (value, expected decoded image or callable checker)."""
     r = rng.randrange(17)
+    if which == "e":
+        r = rng.choice([2, 3, 4, 14, 8, 9, 99])  # (only what does not need the library's json_default)
     if NO_ORJSON and r in (7, 11, 12, 13):
         r = 2  # (non-finite floats, dataclasses, Enum members and UUIDs are encoded by orjson itself, not by eliot's json_default)
     if which == "d" and r in (9, 10):
@@ -227,9 +264,9 @@ def gen_rich(rng, which):
     if r == 8:
         v = tuple(gen.gen_scalar(rng) for _ in range(rng.randint(0, 3)))
         return v, list(v)
-    if r == 9 and which in ("a", "b"):
+    if r == 9 and which in ("a", "b", "e"):
         v = gen.gen_value(rng, 1)
-        return Custom(v), ({"custom": v} if which == "a" else ["C", v])
+        return Custom(v), ({"custom": v} if which in ("a", "e") else ["C", v])
     if r == 10 and which == "b":
         v = gen.gen_scalar(rng)
         return Custom2(v), ["C", v]
@@ -255,7 +292,9 @@ def match(expected, got):
 
 def one(seed, i, tier, res, pool):
     rng = random.Random("%s:C10:%d" % (seed, i))
-    which = rng.choice(["default", "default", "a", "b", "c", "d"])
+    which = rng.choice(["default", "default", "a", "b", "c", "d", "e"])
+    if which == "e" and NO_ORJSON:
+        which = "a"  # (without orjson dates and times are encoded by the json_default, so a non-delegating one legitimately refuses them)
     default = DEFAULTS[which]
     maxdepth = 12 if tier == "quick" else 60
     fields = {}
@@ -601,6 +640,8 @@ def realtext_case(seed, i, res):
 
 def run_case(spec):
     res = {"evals": 0, "nontrivial": [], "counters": {}, "violations": [], "sample": None}
+    if spec.get("part") == "shutdown":
+        return shutdown_case(spec)
     if spec.get("part") == "realtext":
         for i in range(spec["lo"], spec["hi"]):
             realtext_case(spec["seed"], i, res)
@@ -627,4 +668,8 @@ def finalize(agg, tier):
         return "too few write calls / rich values observed"
     if c.get("file_faults_raised", 0) < 500:
         return "too few file faults injected"
+    if c.get("messages_offered_during_interpreter_shutdown", 0) < 9:
+        return "too few messages were offered during interpreter shutdown"
+    if c.get("json_default_e", 0) < 100:
+        return "the non-delegating json_default was rarely used"
     return None
